@@ -33,10 +33,10 @@ def ref_cfg(name, threads, maxops):
 
 
 def run(v, tier, seed):
-    vlib.make("asan", "rc")
-    vlib.make("plain", "rc")
-    rc_bin = vlib.binpath("asan", "rc")
-    rc_plain = vlib.binpath("plain", "rc")     # the free-running stress stage needs speed, not ASan
+    rcname, private_ok = vlib.make_with_fallback("asan", "rc")
+    vlib.make("plain", rcname)
+    rc_bin = vlib.binpath("asan", rcname)
+    rc_plain = vlib.binpath("plain", rcname)     # the free-running stress stage needs speed, not ASan
     W = lambda n: vlib.scratch("C10", n)
     tot = {"states": 0, "transitions": 0, "behaviours": 0, "followed": 0, "steps": 0}; mc_notes = []; samples = []
 
@@ -51,6 +51,8 @@ def run(v, tier, seed):
         r = vlib.tlc("PoolImpl", pool_cfg("gen_MC_pool_%s.cfg" % tag, n, maxpool, False), "RefPool", coverage=True, workers=2, timeout=900)
         vlib.require_ok(r, "PoolImpl model check N=%d MaxPool=%d" % (n, maxpool))
         vlib.require_coverage(r, ["Obtain", "Drain"], "PoolImpl")
+        if not private_ok:      # the pool replay compares private slab state
+            return "PoolImpl N=%d MaxPool=%d" % (n, maxpool), r, [{"summary": True, "behaviours": 0, "followed": 0, "steps": 0}], []
         dot = W("g%s.dot" % tag)
         g = vlib.tlc("PoolImpl", pool_cfg("gen_Gen_pool_%s.cfg" % tag, n, maxpool, True), "RefPool", workers=2, timeout=900, dump=dot)
         vlib.require_ok(g, "PoolImpl graph dump")
@@ -70,6 +72,8 @@ def run(v, tier, seed):
         if code in (66, 67) or "ERROR: AddressSanitizer" in err or "runtime error:" in err or vlib.crashed(code):
             return None, "[exit %s] " % code + err
         if code != 0: raise vlib.MachineryError("rc explore failed rc=%s: %s %s" % (code, out[-300:], err[-1500:]))
+        if not private_ok or not os.path.exists(tr) or os.path.getsize(tr) == 0:
+            return (vlib.read_ndjson(rep), True, None, tr, []), None
         r = vlib.tlc("RefTrace", "Trace.cfg", "RefPool", workers=1, timeout=1800, env={"TRACE": tr}, keep_out=True)
         accepted = (r.violated == "NotAccepted")
         m = re.search(r'"maxline", (\d+)', r.out); maxline = int(m.group(1)) if m else None
@@ -99,7 +103,7 @@ def run(v, tier, seed):
             mc_notes.append({"instance": tag, "distinct": r.distinct, "generated": r.generated, "depth": r.depth, "wall_s": round(r.wall, 1)})
             summ = [x for x in rows if x.get("summary")][0]
             tot["behaviours"] += summ["behaviours"]; tot["followed"] += summ["followed"]; tot["steps"] += summ["steps"]
-            samples.append({"kind": "pool behaviour replayed", "instance": tag, "steps": smp})
+            if smp: samples.append({"kind": "pool behaviour replayed", "instance": tag, "steps": smp})
             for x in rows:
                 if x.get("summary"): continue
                 if x.get("violations"): v.violation("pool replay (%s): %s" % (tag, "; ".join(x["violations"])), x, tag="pool")
